@@ -169,12 +169,21 @@ func (r *Remote) receive(ctx context.Context, ID json.RawMessage) (*Message, err
 	}
 }
 
-// Call handles sending an RPC and receiving the corresponding response synchronously.
-func (r *Remote) Call(ctx context.Context, result interface{}, method string, params ...interface{}) error {
+// requester returns the Client used to build requests, installing the default
+// one on first use. Calls may be concurrent: two of them must not both install
+// a Client of their own, or both would number their requests from 1.
+func (r *Remote) requester() Requester {
+	r.mu.Lock()
+	defer r.mu.Unlock()
 	if r.Client == nil {
 		r.Client = &Client{}
 	}
-	req, err := r.Client.Request(method, params...)
+	return r.Client
+}
+
+// Call handles sending an RPC and receiving the corresponding response synchronously.
+func (r *Remote) Call(ctx context.Context, result interface{}, method string, params ...interface{}) error {
+	req, err := r.requester().Request(method, params...)
 	if err != nil {
 		return err
 	}
